@@ -312,6 +312,8 @@ func (ev *Evaluator) rootObj(e ast.Expr) types.Object {
 			e = x.X
 		case *ast.IndexExpr:
 			e = x.X
+		case *ast.SliceExpr:
+			e = x.X
 		case *ast.StarExpr:
 			e = x.X
 		case *ast.ParenExpr:
@@ -425,6 +427,35 @@ func (ev *Evaluator) Eval(e ast.Expr, env *Env) Value {
 			}
 		}
 		return ev.unk(x, "selector")
+	case *ast.SliceExpr:
+		base := ev.Eval(x.X, env)
+		if p, ok := base.(*Ptr); ok {
+			base = p.Elem
+		}
+		sl, ok := base.(*Slice)
+		if !ok || x.Slice3 {
+			return ev.unk(x, "slice of an undetermined value")
+		}
+		lo, hi := 0, len(sl.Elems)
+		if x.Low != nil {
+			v, ok := AsInt(ev.Eval(x.Low, env))
+			if !ok {
+				return ev.unk(x, "slice bound not determined")
+			}
+			lo = v
+		}
+		if x.High != nil {
+			v, ok := AsInt(ev.Eval(x.High, env))
+			if !ok {
+				return ev.unk(x, "slice bound not determined")
+			}
+			hi = v
+		}
+		if lo < 0 || hi < lo || hi > len(sl.Elems) {
+			return ev.unk(x, "slice bounds out of range")
+		}
+		// the result shares its elements with the operand, as in Go
+		return &Slice{Elems: sl.Elems[lo:hi:hi], Elem: sl.Elem, Pos: x.Pos()}
 	case *ast.IndexExpr:
 		base := ev.Eval(x.X, env)
 		idx := ev.Eval(x.Index, env)
@@ -950,7 +981,8 @@ func (ev *Evaluator) Call(fd *ast.FuncDecl, bind map[string]Value) ([]Value, boo
 	if c == ctlAbort {
 		return nil, false
 	}
-	return fr.Results, c == ctlReturn
+	// a function without results may fall off its end
+	return fr.Results, c == ctlReturn || (c == ctlNone && (fd.Type.Results == nil || len(fd.Type.Results.List) == 0))
 }
 
 func (ev *Evaluator) block(list []ast.Stmt, env *Env, fr *Frame) ctl {
@@ -978,7 +1010,17 @@ func (ev *Evaluator) stmt(s ast.Stmt, env *Env, fr *Frame) ctl {
 	case *ast.EmptyStmt:
 		return ctlNone
 	case *ast.ExprStmt:
-		return ctlNone // calls for effect are not modelled (none in table constructors)
+		// a call for effect: in-package functions are evaluated (slices and pointers share storage with the
+		// caller); anything else could change state the evaluator would then misreport, so it leaves the subset
+		if call, ok := x.X.(*ast.CallExpr); ok {
+			if fd, _ := ev.calleeDecl(call); fd != nil {
+				if _, bad := ev.Eval(call, env).(Unknown); bad {
+					return ev.abort(x, "call for effect left the evaluable subset")
+				}
+				return ctlNone
+			}
+		}
+		return ev.abort(x, "statement with an external call for effect is not modelled")
 	case *ast.DeclStmt:
 		gd := x.Decl.(*ast.GenDecl)
 		for _, sp := range gd.Specs {
